@@ -524,7 +524,7 @@ def generic_trip_rule(ctx, R, M, mod):
 
 
 def trip_vectors(P, cname, fields):
-    """Boundary vectors of raw field values: every allowed extended opcode x (all 0, all 1, all max, each field max alone)."""
+    """Boundary vectors of raw field values: every allowed extended opcode x (all 0, all 1, all max, each field max alone, sign-boundary values of each field of 4 bits or more)."""
     c = P.classes[cname]
     var = [i for i, f in enumerate(fields) if f.fbits is None]
     setvals = {}
@@ -539,6 +539,13 @@ def trip_vectors(P, cname, fields):
         v = dict((i, 0) for i in free)
         v[j] = (1 << fields[j].l) - 1
         base.append(v)
+        # signed fields (displacements, immediates): sign bit alone, largest positive value, the two patterns of the top two bits, sign bit with the lowest bit
+        l_ = fields[j].l
+        if l_ >= 4:
+            for val_ in (1 << (l_ - 1), (1 << (l_ - 1)) - 1, 1 << (l_ - 2), (1 << (l_ - 1)) | 1, (3 << (l_ - 2)) | 1):
+                v = dict((i, 0) for i in free)
+                v[j] = val_
+                base.append(v)
     out = []
     combos = list(itertools.product(*[setvals[i] for i in sorted(setvals)])) if setvals else [()]
     for cb in combos:
